@@ -1841,4 +1841,623 @@ theorem shape_plain (u : Ucd) (f : Font) (c : Cfg) (text : List (Nat × Nat))
         exact h3 t ht
       · exact Or.inr h3
 
+/-! ## slot-by-slot relations between two buffers of the same length -/
+
+inductive Rel2 (R : G → G → Prop) : List G → List G → Prop
+  | nil : Rel2 R [] []
+  | cons {a b : G} {l l' : List G} : R a b → Rel2 R l l' → Rel2 R (a :: l) (b :: l')
+
+theorem Rel2.refl {R : G → G → Prop} (hR : ∀ g, R g g) (l : List G) : Rel2 R l l := by
+  induction l with
+  | nil => exact .nil
+  | cons a t ih => exact .cons (hR a) ih
+
+theorem Rel2.map {R : G → G → Prop} (fn : G → G) (h : ∀ g, R g (fn g)) (l : List G) : Rel2 R l (l.map fn) := by
+  induction l with
+  | nil => exact .nil
+  | cons a t ih => exact .cons (h a) ih
+
+theorem Rel2.append {R : G → G → Prop} {a b a' b' : List G} (h1 : Rel2 R a a') (h2 : Rel2 R b b') :
+    Rel2 R (a ++ b) (a' ++ b') := by
+  induction h1 with
+  | nil => exact h2
+  | cons h _ ih => exact .cons h ih
+
+theorem Rel2.mono {R S : G → G → Prop} (h : ∀ a b, R a b → S a b) {l l' : List G} (hr : Rel2 R l l') :
+    Rel2 S l l' := by
+  induction hr with
+  | nil => exact .nil
+  | cons hab _ ih => exact .cons (h _ _ hab) ih
+
+/-- the same, when the implication is only needed for slots of the first buffer -/
+theorem Rel2.mono_mem {R S : G → G → Prop} {l l' : List G} (hr : Rel2 R l l')
+    (h : ∀ a ∈ l, ∀ b, R a b → S a b) : Rel2 S l l' := by
+  induction hr with
+  | nil => exact .nil
+  | cons hab _ ih =>
+    exact .cons (h _ List.mem_cons_self _ hab) (ih (fun a ha b hb => h a (List.mem_cons_of_mem _ ha) b hb))
+
+theorem Rel2.comp {R S : G → G → Prop} {a b c : List G} (h1 : Rel2 R a b) (h2 : Rel2 S b c) :
+    Rel2 (fun x z => ∃ y, R x y ∧ S y z) a c := by
+  induction h1 generalizing c with
+  | nil => cases h2; exact .nil
+  | cons hab _ ih =>
+    cases h2 with
+    | cons hbc h2' => exact .cons ⟨_, hab, hbc⟩ (ih h2')
+
+theorem Rel2.of_map_eq {α} (key : G → α) {l l' : List G} (h : l'.map key = l.map key) :
+    Rel2 (fun a b => key b = key a) l l' := by
+  induction l generalizing l' with
+  | nil =>
+    cases l' with
+    | nil => exact .nil
+    | cons b t => simp at h
+  | cons a t ih =>
+    cases l' with
+    | nil => simp at h
+    | cons b t' =>
+      simp only [List.map_cons, List.cons.injEq] at h
+      exact .cons h.1 (ih h.2)
+
+theorem Rel2.length {R : G → G → Prop} {l l' : List G} (h : Rel2 R l l') : l'.length = l.length := by
+  induction h with
+  | nil => rfl
+  | cons _ _ ih => simp [ih]
+
+/-- filtering both buffers by a predicate the relation preserves, then projecting -/
+theorem Rel2.filter_map {R : G → G → Prop} {α} (D : G → Bool) (ψ φ : G → α) {l l' : List G}
+    (hr : Rel2 R l l')
+    (hD : ∀ a ∈ l, ∀ b, R a b → D b = D a)
+    (hφ : ∀ a ∈ l, ∀ b, R a b → D a = false → ψ b = φ a) :
+    (l'.filter fun g => !D g).map ψ = (l.filter fun g => !D g).map φ := by
+  induction hr with
+  | nil => rfl
+  | @cons a b l l' hab _ ih =>
+    have hDab := hD a List.mem_cons_self b hab
+    have ih' := ih (fun x hx y hy => hD x (List.mem_cons_of_mem _ hx) y hy)
+      (fun x hx y hy => hφ x (List.mem_cons_of_mem _ hx) y hy)
+    simp only [List.filter_cons, hDab]
+    cases hda : D a with
+    | true => simpa using ih'
+    | false =>
+      simp only [Bool.not_false, if_true, List.map_cons]
+      rw [hφ a List.mem_cons_self b hab hda, ih']
+
+
+theorem setUnicodeProps_rel (u : Ucd) (prev : Option G) (az : Bool) (l : List G) (s : Scratch) :
+    Rel2 (PropsStep u) l (setUnicodeProps u prev az l s).1 := by
+  induction l generalizing prev az s with
+  | nil => exact .nil
+  | cons g rest ih =>
+    simp only [setUnicodeProps, G.init]
+    split
+    · exact .cons ⟨true, rfl⟩ (ih _ _ _)
+    · refine .cons ?_ (ih _ _ _)
+      rcases classifyCont_cases prev { g with props := initP u g.gid } with hc | hc
+      · exact ⟨(initP u g.gid).cont, by rw [hc]⟩
+      · exact ⟨true, by rw [hc]; rfl⟩
+
+/-- what the normalizer does to one slot when it runs to the end -/
+def NormStep' (u : Ucd) (f : Font) (g g' : G) : Prop :=
+  (∃ s, g' = (decomposeCurrent u f g s).1) ∨ g' = setGlyph f g ∨
+    (isVS g.gid = true ∧ g' = setGlyph f (customizeVS g))
+
+theorem mapAccum_rel (u : Ucd) (f : Font) (l : List G) (s : Scratch) :
+    Rel2 (NormStep' u f) l (mapAccum (decomposeCurrent u f) l s).1 := by
+  induction l generalizing s with
+  | nil => exact .nil
+  | cons g tl ih => exact .cons (Or.inl ⟨s, rfl⟩) (ih _)
+
+theorem vsCluster_rel (u : Ucd) (f : Font) (n : Nat) (l : List G) (hn : l.length ≤ n) :
+    Rel2 (NormStep' u f) l (vsCluster f n l).1 := by
+  induction n generalizing l with
+  | zero =>
+    cases l with
+    | nil => exact .nil
+    | cons a t => simp at hn
+  | succ n ih =>
+    match l, hn with
+    | [], _ => exact .nil
+    | [a], _ => exact .cons (Or.inr (Or.inl rfl)) .nil
+    | a :: b :: rest, hn =>
+      simp only [vsCluster]
+      split
+      · rename_i hvs
+        dsimp only
+        have hsplit : a :: b :: rest = (a :: b :: rest.takeWhile fun g => isVS g.gid) ++ rest.dropWhile fun g => isVS g.gid := by
+          simp [List.takeWhile_append_dropWhile]
+        rw [hsplit]
+        apply Rel2.append
+        · refine .cons (Or.inr (Or.inl rfl)) (.cons (Or.inr (Or.inr ⟨hvs, rfl⟩)) ?_)
+          exact Rel2.map _ (fun g => Or.inr (Or.inl rfl)) _
+        · apply ih
+          have := (List.dropWhile_sublist (l := rest) fun g => isVS g.gid).length_le
+          simp at hn; omega
+      · dsimp only
+        exact .cons (Or.inr (Or.inl rfl)) (ih _ (by simp at hn ⊢; omega))
+
+theorem multiCharCluster_rel (u : Ucd) (f : Font) (cl : List G) (s : Scratch) :
+    Rel2 (NormStep' u f) cl (multiCharCluster u f cl s).1 := by
+  unfold multiCharCluster
+  split
+  · exact vsCluster_rel u f _ _ (Nat.le_refl _)
+  · exact mapAccum_rel u f cl s
+
+theorem dropLast_append_getLast?_getD {α} (d : α) (l : List α) (h : l ≠ []) :
+    l.dropLast ++ [l.getLast?.getD d] = l := by
+  induction l with
+  | nil => exact absurd rfl h
+  | cons a t ih =>
+    cases t with
+    | nil => simp
+    | cons b t' =>
+      have := ih (by simp)
+      simp only [List.dropLast_cons_cons, List.cons_append, List.getLast?_cons_cons]
+      rw [this]
+
+theorem normalizeRound1_rel (u : Ucd) (f : Font) (n : Nat) (l : List G) (s : Scratch) (hn : l.length ≤ n) :
+    Rel2 (NormStep' u f) l (normalizeRound1 u f n l s).1 := by
+  induction n generalizing l s with
+  | zero =>
+    cases l with
+    | nil => exact .nil
+    | cons a t => simp at hn
+  | succ n ih =>
+    cases l with
+    | nil => exact .nil
+    | cons g0 rest =>
+      simp only [normalizeRound1]
+      have hrest : rest = rest.takeWhile (fun g => !g.isMark) ++ rest.dropWhile (fun g => !g.isMark) :=
+        (List.takeWhile_append_dropWhile).symm
+      split
+      · rename_i hafter
+        have : g0 :: rest = g0 :: rest.takeWhile (fun g => !g.isMark) := by
+          rw [hafter, List.append_nil] at hrest; rw [← hrest]
+        rw [this]
+        exact mapAccum_rel u f _ s
+      · rename_i a b hafter
+        dsimp only
+        generalize hrun : g0 :: rest.takeWhile (fun g => !g.isMark) = run
+        have hrun_ne : run ≠ [] := by rw [← hrun]; simp
+        have hafter2 : rest.dropWhile (fun g => !g.isMark)
+            = (rest.dropWhile fun g => !g.isMark).takeWhile G.isMark ++ (rest.dropWhile fun g => !g.isMark).dropWhile G.isMark :=
+          (List.takeWhile_append_dropWhile).symm
+        have hl : g0 :: rest = run.dropLast ++ (run.getLast?.getD g0 :: (rest.dropWhile fun g => !g.isMark).takeWhile G.isMark)
+            ++ (rest.dropWhile fun g => !g.isMark).dropWhile G.isMark := by
+          have h1 : g0 :: rest = run ++ rest.dropWhile (fun g => !g.isMark) := by
+            rw [← hrun]; simp only [List.cons_append]; rw [← hrest]
+          rw [h1]
+          conv => lhs; rw [← dropLast_append_getLast?_getD g0 run hrun_ne, hafter2]
+          simp [List.append_assoc]
+        rw [hl]
+        apply Rel2.append
+        · apply Rel2.append
+          · exact mapAccum_rel u f _ s
+          · exact multiCharCluster_rel u f _ _
+        · apply ih
+          have h1 := (List.dropWhile_sublist (l := rest) fun g => !g.isMark).length_le
+          have h2 := (List.dropWhile_sublist (l := rest.dropWhile fun g => !g.isMark) G.isMark).length_le
+          simp at hn; omega
+
+theorem positionMarksFb_rel (adjust seen : Bool) (l : List G) :
+    Rel2 (fun g g' => g' = g ∨ (g.isMark = true ∧ g' = zeroMark adjust g)) l (positionMarksFb adjust seen l) := by
+  induction l generalizing seen with
+  | nil => exact .nil
+  | cons g tl ih =>
+    simp only [positionMarksFb]
+    split
+    · rename_i hm
+      refine .cons ?_ (ih _)
+      split
+      · exact Or.inr ⟨hm, rfl⟩
+      · exact Or.inl rfl
+    · exact .cons (Or.inl rfl) (ih _)
+
+
+/-! ## one plain slot through the left-to-right pipeline -/
+
+theorem fallbackSpace1_hi0 (f : Font) (dir : Dir) (g : G) (h : g.props.hi = 0) : fallbackSpace1 f dir g = g := by
+  unfold fallbackSpace1
+  split
+  · simp only [h]
+    have e1 : ((0 : Nat) == SPACE_EM || (0 : Nat) == SPACE_EM_2 || (0 : Nat) == SPACE_EM_3 || (0 : Nat) == SPACE_EM_4
+        || (0 : Nat) == SPACE_EM_5 || (0 : Nat) == SPACE_EM_6 || (0 : Nat) == SPACE_EM_16) = false := by decide
+    have e2 : ((0 : Nat) == SPACE_4_EM_18) = false := by decide
+    have e3 : ((0 : Nat) == SPACE_FIGURE) = false := by decide
+    have e4 : ((0 : Nat) == SPACE_PUNCTUATION) = false := by decide
+    have e5 : ((0 : Nat) == SPACE_NARROW) = false := by decide
+    simp only [e1, e2, e3, e4, e5, Bool.false_eq_true, if_false]
+  · rfl
+
+/-- the version of `positionMarksFb`'s relation inside the positioning chain -/
+def PosChain' (f : Font) (c : Cfg) (bdir : Dir) (s : Scratch) (g g' : G) : Prop :=
+  ∃ g2 g4,
+    (g2 = posDefault1 f bdir g ∨ g2 = fallbackSpace1 f bdir (posDefault1 f bdir g)) ∧
+    (g4 = zeroGdef1 bdir.isForward g2 ∨ g4 = zeroDI1 (zeroGdef1 bdir.isForward g2)) ∧
+    (g' = g4 ∨ (g4.isMark = true ∧ g' = zeroMark bdir.isForward g4))
+
+theorem position_rel (f : Font) (c : Cfg) (bdir : Dir) (s : Scratch) (l : List G) :
+    Rel2 (PosChain' f c bdir s) l (position f c bdir s l) := by
+  unfold position
+  simp only
+  have h1 : Rel2 (fun g g2 => g2 = posDefault1 f bdir g ∨ g2 = fallbackSpace1 f bdir (posDefault1 f bdir g)) l
+      (if s.hasSpaceFb then fallbackSpaces f bdir (positionDefault f bdir l) else positionDefault f bdir l) := by
+    split
+    · unfold fallbackSpaces positionDefault
+      rw [List.map_map]
+      exact Rel2.map _ (fun g => Or.inr rfl) l
+    · unfold positionDefault
+      exact Rel2.map _ (fun g => Or.inl rfl) l
+  have h2 : ∀ l2 : List G, Rel2 (fun g2 g4 => g4 = zeroGdef1 bdir.isForward g2 ∨ g4 = zeroDI1 (zeroGdef1 bdir.isForward g2))
+      l2 (zeroWidthDI c s (zeroMarkWidthsByGdef bdir.isForward l2)) := by
+    intro l2
+    unfold zeroWidthDI zeroMarkWidthsByGdef
+    split
+    · rw [List.map_map]
+      exact Rel2.map _ (fun g => Or.inr rfl) l2
+    · exact Rel2.map _ (fun g => Or.inl rfl) l2
+  have h3 := positionMarksFb_rel bdir.isForward false
+    (zeroWidthDI c s (zeroMarkWidthsByGdef bdir.isForward
+      (if s.hasSpaceFb then fallbackSpaces f bdir (positionDefault f bdir l) else positionDefault f bdir l)))
+  have := (h1.comp (h2 _)).comp h3
+  refine this.mono ?_
+  intro a b ⟨g4, ⟨g2, h12, h24⟩, h4b⟩
+  exact ⟨g2, g4, h12, h24, h4b⟩
+
+theorem PosChain'.plain {f : Font} {c : Cfg} {bdir : Dir} {s : Scratch} {g g' : G}
+    (h : PosChain' f c bdir s g g') (hm : g.isMark = false) (hv : g.var1 = 2) (hd : g.isDI = false)
+    (hh : g.props.hi = 0) : g' = posDefault1 f bdir g := by
+  obtain ⟨g2, g4, h2, h4, h'⟩ := h
+  have np := posDefault1_nonPos f bdir g
+  have e2 : g2 = posDefault1 f bdir g := by
+    rcases h2 with h2 | h2
+    · exact h2
+    · rw [h2]; exact fallbackSpace1_hi0 _ _ _ (by rw [np.2.2.2.1]; exact hh)
+  have e4 : g4 = g2 := by
+    have hz : zeroGdef1 bdir.isForward g2 = g2 := zeroGdef1_base _ _ (by rw [e2, np.2.2.2.2]; exact hv)
+    rcases h4 with h4 | h4
+    · rw [h4, hz]
+    · rw [h4, hz]; unfold zeroDI1; rw [if_neg]; rw [e2, isDI_of_nonPos np, hd]; decide
+  rcases h' with h' | ⟨hmk, _⟩
+  · rw [h', e4, e2]
+  · exfalso
+    rw [e4, e2] at hmk
+    unfold G.isMark at hmk hm
+    rw [np.2.2.2.1] at hmk
+    rw [hm] at hmk; cases hmk
+
+theorem initP_nonDI (u : Ucd) (c : Nat) (hd : u.isDI c = false) (hm : isMarkGc (u.gc c) = false) :
+    initP u c = { gc := u.gc c } := by
+  unfold initP
+  simp only [hd, hm, Bool.false_eq_true, if_false]
+  split <;> rfl
+
+/-- the visible fields of a slot -/
+def vis (g : G) : Nat × Int × Int × Int × Int := (g.gid, g.xa, g.ya, g.xo, g.yo)
+
+theorem plain_slot_ltr (u : Ucd) (f : Font) (c : Cfg) (s : Scratch) (g0 g1 g2 g3 g5 : G) (gl : Nat)
+    (hpl : PlainChar u g0.gid) (hvs : isVS g0.gid = false) (hnd : u.isDI g0.gid = false)
+    (hgl : nominal f g0.gid = some gl)
+    (h1 : PropsStep u g0 g1) (h2 : eC g2 = eC g1) (h3 : NormStep' u f g2 g3)
+    (h5 : PosChain' f c .ltr s (mapGlyph1 g3) g5) :
+    vis g5 = (gl, hAdvance f gl, 0, 0, 0) := by
+  obtain ⟨cont, e1⟩ := h1
+  have e2 := eq_of_eC_eq h2
+  have hprops2 : g2.props = { gc := u.gc g0.gid, cont := cont } := by
+    rw [e2, e1]; simp only; rw [initP_nonDI u _ hnd hpl.mark]
+  have hgid2 : g2.gid = g0.gid := by rw [e2, e1]
+  have hnom2 : nominal f g2.gid = some gl := by rw [hgid2]; exact hgl
+  have e3 : g3 = { g2 with var1 := gl } := by
+    rcases h3 with ⟨s', h3⟩ | h3 | ⟨hv, _⟩
+    · rw [h3]; unfold decomposeCurrent; rw [hnom2]
+    · rw [h3]; unfold setGlyph; rw [hnom2]
+    · rw [hgid2, hvs] at hv; cases hv
+  have hm : (mapGlyph1 g3).isMark = false := by
+    unfold G.isMark; rw [(mapGlyph1_facts g3).1, e3]; simp only; rw [hprops2]; exact hpl.mark
+  have hnm : (u.gc g0.gid != GC_NON_SPACING_MARK) = true := by
+    have := hpl.mark
+    unfold isMarkGc at this
+    simp only [Bool.or_eq_false_iff] at this
+    simpa using this.2
+  have hv : (mapGlyph1 g3).var1 = 2 := by
+    unfold mapGlyph1; dsimp only; rw [if_pos]
+    rw [e3]; simp only; rw [hprops2]; simp only; rw [hnm]; rfl
+  have hd : (mapGlyph1 g3).isDI = false := by
+    unfold G.isDI; rw [(mapGlyph1_facts g3).1, e3]; simp only; rw [hprops2]; rfl
+  have hh : (mapGlyph1 g3).props.hi = 0 := by
+    rw [(mapGlyph1_facts g3).1, e3]; simp only; rw [hprops2]
+  rw [h5.plain hm hv hd hh]
+  have hg : (mapGlyph1 g3).gid = gl := by rw [(mapGlyph1_facts g3).2.2.1, e3]
+  unfold vis posDefault1
+  simp only [Dir.isHorizontal, if_true, hg]
+
+
+theorem Rel2.mem_right {R : G → G → Prop} {l l' : List G} (h : Rel2 R l l') :
+    ∀ b ∈ l', ∃ a ∈ l, R a b := by
+  induction h with
+  | nil => intro b hb; cases hb
+  | cons hab _ ih =>
+    intro b hb
+    simp only [List.mem_cons] at hb
+    rcases hb with rfl | hb
+    · exact ⟨_, List.mem_cons_self, hab⟩
+    · obtain ⟨a, ha, hr⟩ := ih b hb
+      exact ⟨a, List.mem_cons_of_mem _ ha, hr⟩
+
+theorem Rel2.head {R : G → G → Prop} {l l' : List G} (h : Rel2 R l l') :
+    ∀ b ∈ l'.head?, ∃ a ∈ l.head?, R a b := by
+  cases h with
+  | nil => intro b hb; simp at hb
+  | cons hab _ => intro b hb; simp at hb; subst hb; exact ⟨_, by simp, hab⟩
+
+/-- the whole left-to-right chain for one slot -/
+def LtrChain (u : Ucd) (f : Font) (c : Cfg) (s : Scratch) (g0 g5 : G) : Prop :=
+  ∃ g1 g2 g3, PropsStep u g0 g1 ∧ eC g2 = eC g1 ∧ NormStep' u f g2 g3 ∧ PosChain' f c .ltr s (mapGlyph1 g3) g5
+
+theorem normStep'_ign {u : Ucd} {f : Font} {g g' : G} (h : NormStep' u f g g') :
+    g'.props.ign = g.props.ign ∧ g'.cp0 = g.cp0 := by
+  rcases h with ⟨s, h⟩ | h | ⟨_, h⟩
+  · rw [h]; exact decomposeCurrent_ign u f g s
+  · rw [h]; exact ⟨by rw [(setGlyph_ign f g).1], (setGlyph_ign f g).2⟩
+  · rw [h]; exact ⟨by rw [(setGlyph_ign f _).1]; rfl, by rw [(setGlyph_ign f _).2]; rfl⟩
+
+theorem PosChain'.nonPos {f : Font} {c : Cfg} {bdir : Dir} {s : Scratch} {g g' : G}
+    (h : PosChain' f c bdir s g g') : NonPos g g' := by
+  obtain ⟨g2, g4, h2, h4, h'⟩ := h
+  have n2 : NonPos g g2 := by
+    rcases h2 with h2 | h2
+    · rw [h2]; exact posDefault1_nonPos _ _ _
+    · rw [h2]; exact (posDefault1_nonPos _ _ _).trans (fallbackSpace1_nonPos _ _ _)
+  have n4 : NonPos g2 g4 := by
+    rcases h4 with h4 | h4
+    · rw [h4]; exact zeroGdef1_nonPos _ _
+    · rw [h4]; exact (zeroGdef1_nonPos _ _).trans (zeroDI1_nonPos _)
+  have n' : NonPos g4 g' := by
+    rcases h' with h' | ⟨_, h'⟩
+    · rw [h']; exact NonPos.refl _
+    · rw [h']; exact zeroMark_nonPos _ _
+  exact (n2.trans n4).trans n'
+
+theorem LtrChain.facts {u : Ucd} {f : Font} {c : Cfg} {s : Scratch} {g0 g5 : G} (h : LtrChain u f c s g0 g5) :
+    g5.cp0 = g0.cp0 ∧ (g5.isDI = true → (decide (0x80 ≤ g0.gid) && u.isDI g0.gid) = true) := by
+  obtain ⟨g1, g2, g3, ⟨cont, e1⟩, h2, h3, h5⟩ := h
+  have e2 := eq_of_eC_eq h2
+  obtain ⟨i3, c3⟩ := normStep'_ign h3
+  have np := h5.nonPos
+  obtain ⟨mp, mc, _, _⟩ := mapGlyph1_facts g3
+  refine ⟨?_, ?_⟩
+  · rw [np.1, mc, c3, e2, e1]
+  · intro hdi
+    unfold G.isDI at hdi
+    simp only [Bool.and_eq_true] at hdi
+    have := hdi.1
+    rw [np.2.2.2.1, mp, i3, e2, e1] at this
+    simp only at this
+    rw [initP_ign] at this
+    exact this
+
+
+/-! ## inserting default ignorables into left-to-right text -/
+
+theorem needsReverse_ltr (c : Cfg) (l : List G) (hdir : c.dir = .ltr) (hnat : c.nat = none ∨ c.nat = some .ltr) :
+    needsReverse c l = false := by
+  have he : effectiveHor c l = c.nat := by
+    unfold effectiveHor
+    rcases hnat with h | h <;> rw [h] <;> rfl
+  unfold needsReverse
+  rw [he, hdir]
+  rcases hnat with h | h <;> rw [h] <;> rfl
+
+theorem rotateChars_ltr (u : Ucd) (f : Font) (c : Cfg) (l : List G) (hdir : c.dir = .ltr) :
+    rotateChars u f c l = l := by
+  unfold rotateChars; rw [hdir]; rfl
+
+/-- `insert_dotted_circle` is off, or the text does not start with a mark -/
+def NoDottedCircle (u : Ucd) (f : Font) (c : Cfg) (text : List (Nat × Nat)) : Prop :=
+  hasFlag c.flags BF_BOT = false ∨ hasFlag c.flags BF_NO_DOTTED = true ∨ c.preLen ≠ 0 ∨
+    nominal f 0x25CC = none ∨ ∀ t ∈ text.head?, isMarkGc (u.gc t.1) = false
+
+theorem insertDottedCircle_off (u : Ucd) (f : Font) (c : Cfg) (l : List G) (s : Scratch)
+    (h : hasFlag c.flags BF_BOT = false ∨ hasFlag c.flags BF_NO_DOTTED = true ∨ c.preLen ≠ 0 ∨
+      nominal f 0x25CC = none ∨ ∀ g ∈ l.head?, g.isMark = false) :
+    insertDottedCircle u f c l s = (l, s) := by
+  unfold insertDottedCircle
+  cases l with
+  | nil => rfl
+  | cons g0 tl =>
+    simp only
+    rw [if_neg]
+    intro hc
+    simp only [Bool.and_eq_true, Bool.not_eq_true', beq_iff_eq] at hc
+    obtain ⟨⟨⟨⟨h1, h2⟩, h3⟩, h4⟩, h5⟩ := hc
+    rcases h with h | h | h | h | h
+    · rw [h] at h2; cases h2
+    · rw [h] at h1; cases h1
+    · exact h h3
+    · rw [h] at h5; cases h5
+    · rw [h g0 (by simp)] at h4; cases h4
+
+theorem hideDI_filter (u : Ucd) (f : Font) (c : Cfg) (s : Scratch) (l : List G)
+    (h : ∀ g ∈ l, g.isDI = true → u.isDI g.cp0 = true) :
+    ((hideDI f c s l).filter fun g => !u.isDI g.cp0).map vis = (l.filter fun g => !u.isDI g.cp0).map vis := by
+  unfold hideDI
+  split
+  · split
+    · rename_i sp _
+      -- hidden: only default-ignorable slots change
+      have : ∀ l' : List G, (∀ g ∈ l', g.isDI = true → u.isDI g.cp0 = true) →
+          ((l'.map (hide1 sp)).filter fun g => !u.isDI g.cp0) = l'.filter fun g => !u.isDI g.cp0 := by
+        intro l' hl'
+        induction l' with
+        | nil => rfl
+        | cons a t ih =>
+          have iht := ih (fun g hg => hl' g (List.mem_cons_of_mem _ hg))
+          have hcp : (hide1 sp a).cp0 = a.cp0 := by unfold hide1; split <;> rfl
+          simp only [List.map_cons, List.filter_cons, hcp]
+          cases hd : u.isDI a.cp0 with
+          | true => simpa using iht
+          | false =>
+            have : a.isDI = false := by
+              cases hdi : a.isDI with
+              | false => rfl
+              | true => rw [hl' a List.mem_cons_self hdi] at hd; cases hd
+            simp only [Bool.not_false, if_true]
+            rw [iht]; unfold hide1; rw [this]; rfl
+      rw [this l h]
+    · -- deleted
+      have he := deleteDI_eC c.level l.length [] l (Nat.le_refl _)
+      simp only [List.nil_append] at he
+      have hvis : ∀ g, vis (eC g) = vis g := fun g => rfl
+      have hcp : ∀ g, u.isDI (eC g).cp0 = u.isDI g.cp0 := fun g => rfl
+      have key : ∀ a b : List G, a.map eC = b.map eC →
+          (a.filter fun g => !u.isDI g.cp0).map vis = (b.filter fun g => !u.isDI g.cp0).map vis := by
+        intro a b hab
+        have h1 := filter_eC_congr (fun g => !u.isDI g.cp0) (fun g => by rw [hcp]) hab
+        have := congrArg (List.map vis) h1
+        simpa only [List.map_map, Function.comp_def, hvis] using this
+      rw [key _ _ he, List.filter_filter]
+      congr 1
+      apply List.filter_congr
+      intro g hg
+      cases hd : u.isDI g.cp0 with
+      | true => simp
+      | false =>
+        have : g.isDI = false := by
+          cases hdi : g.isDI with
+          | false => rfl
+          | true => rw [h g hg hdi] at hd; cases hd
+        simp [notDI, this]
+  · rfl
+
+
+theorem formClusters_eC (c : Cfg) (l : List G) (s : Scratch) : (formClusters c l s).map eC = l.map eC := by
+  unfold formClusters
+  split
+  · exact graphemes_flatten_eC _ _ _ _ (Nat.le_refl _)
+  · rfl
+
+/-- left-to-right, script not right-to-left, no dotted circle: `shapeCore` is the slot-wise chain
+    followed by `hide_default_ignorables` -/
+theorem shapeCore_ltr_chain (u : Ucd) (f : Font) (c : Cfg) (text : List (Nat × Nat))
+    (hdir : c.dir = .ltr) (hnat : c.nat = none ∨ c.nat = some .ltr) (hdot : NoDottedCircle u f c text) :
+    ∃ s l5, shapeCore u f c (initial text) = hideDI f c s l5 ∧
+      Rel2 (LtrChain u f c s) (initial text) l5 := by
+  generalize hl0 : initial text = l0
+  have hr1 := setUnicodeProps_rel u none false l0 {}
+  generalize hsu : setUnicodeProps u none false l0 {} = r at hr1
+  have hd : insertDottedCircle u f c r.1 r.2 = (r.1, r.2) := by
+    apply insertDottedCircle_off
+    rcases hdot with h | h | h | h | h
+    · exact Or.inl h
+    · exact Or.inr (Or.inl h)
+    · exact Or.inr (Or.inr (Or.inl h))
+    · exact Or.inr (Or.inr (Or.inr (Or.inl h)))
+    · refine Or.inr (Or.inr (Or.inr (Or.inr ?_)))
+      intro g hg
+      obtain ⟨g0, hg0, cont, e⟩ := hr1.head g hg
+      rw [← hl0] at hg0
+      unfold initial at hg0
+      rw [List.head?_map] at hg0
+      simp only [Option.mem_def, Option.map_eq_some_iff] at hg0
+      obtain ⟨t, ht, rfl⟩ := hg0
+      rw [e]; unfold G.isMark; simp only; rw [initP_gc]
+      exact h t ht
+  generalize hl2 : formClusters c r.1 r.2 = l2
+  have hr2 : Rel2 (fun a b => eC b = eC a) r.1 l2 := by
+    rw [← hl2]; exact Rel2.of_map_eq eC (formClusters_eC c r.1 r.2)
+  have hprep : prepare u f c l0 = (l2, r.2, .ltr) := by
+    unfold prepare
+    simp only
+    rw [hsu, hd]
+    simp only
+    rw [hl2]
+    unfold ensureNativeDirection
+    rw [needsReverse_ltr c l2 hdir hnat, hdir]
+    rfl
+  generalize hnr : normalizeRound1 u f l2.length l2 r.2 = nr
+  have hr3 : Rel2 (NormStep' u f) l2 nr.1 := by
+    rw [← hnr]; exact normalizeRound1_rel u f _ _ _ (Nat.le_refl _)
+  have hsub : substitute u f c l2 r.2 = (mapGlyphsAndClasses nr.1, nr.2) := by
+    unfold substitute
+    simp only
+    rw [rotateChars_ltr u f c l2 hdir, hnr]
+  have hr4 : Rel2 (fun a b => b = mapGlyph1 a) nr.1 (mapGlyphsAndClasses nr.1) := by
+    unfold mapGlyphsAndClasses; exact Rel2.map (R := fun a b => b = mapGlyph1 a) mapGlyph1 (fun g => rfl) _
+  have hr5 := position_rel f c .ltr nr.2 (mapGlyphsAndClasses nr.1)
+  refine ⟨nr.2, position f c .ltr nr.2 (mapGlyphsAndClasses nr.1), ?_, ?_⟩
+  · unfold shapeCore
+    simp only
+    rw [hprep]
+    simp only
+    rw [hsub]
+    unfold finish
+    rfl
+  · have := (((hr1.comp hr2).comp hr3).comp hr4).comp hr5
+    refine this.mono ?_
+    intro a b ⟨g4, ⟨g3, ⟨g2, ⟨g1, h1, h2⟩, h3⟩, h4⟩, h5⟩
+    subst h4
+    exact ⟨g1, g2, g3, h1, h2, h3, h5⟩
+
+
+/-- what a plain character with a glyph looks like in a left-to-right result -/
+def visOf (f : Font) (cp : Nat) : Nat × Int × Int × Int × Int :=
+  ((nominal f cp).getD 0, hAdvance f ((nominal f cp).getD 0), 0, 0, 0)
+
+theorem shape_insert_noninterference (u : Ucd) (f : Font) (c : Cfg) (text : List (Nat × Nat))
+    (hdir : c.dir = .ltr) (hnat : c.nat = none ∨ c.nat = some .ltr)
+    (hscope : ∀ t ∈ text, u.norm t.1 = false ∧ u.mcc t.1 = 0)
+    (hplain : ∀ t ∈ text, u.isDI t.1 = false →
+      PlainChar u t.1 ∧ isVS t.1 = false ∧ (nominal f t.1).isSome = true)
+    (hdot : NoDottedCircle u f c text) :
+    ∃ out, shape u f c text = .ok out ∧
+      (out.filter fun g => !u.isDI g.cp0).map vis = (text.filter fun t => !u.isDI t.1).map fun t => visOf f t.1 := by
+  have hsc : inScope u (initial text) = true := by
+    unfold inScope initial
+    simp only [List.all_map, List.all_eq_true, Function.comp_def]
+    intro t ht
+    obtain ⟨a, b⟩ := hscope t ht
+    simp [a, b]
+  cases text with
+  | nil => exact ⟨[], by unfold shape; simp [initial, inScope], rfl⟩
+  | cons t0 ts =>
+    obtain ⟨s, l5, hcore, hrel⟩ := shapeCore_ltr_chain u f c (t0 :: ts) hdir hnat hdot
+    refine ⟨shapeCore u f c (initial (t0 :: ts)), ?_, ?_⟩
+    · unfold shape
+      simp only [hsc, Bool.not_true, Bool.false_eq_true, if_false]
+      rw [if_neg (by simp [initial])]
+    · rw [hcore, hideDI_filter u f c s l5 (by
+        intro g hg hdi
+        obtain ⟨g0, hg0, hch⟩ := hrel.mem_right g hg
+        obtain ⟨hcp, hd⟩ := hch.facts
+        have := hd hdi
+        simp only [Bool.and_eq_true] at this
+        rw [hcp, ← (initial_gid _ g0 hg0).1]; exact this.2)]
+      rw [Rel2.filter_map (fun g => u.isDI g.cp0) vis (fun g0 => visOf f g0.gid) hrel
+        (fun a _ b hab => by rw [hab.facts.1])
+        (fun a ha b hab hda => by
+          obtain ⟨g1, g2, g3, h1, h2, h3, h5⟩ := hab
+          have hgid := (initial_gid _ a ha).1
+          unfold initial at ha
+          obtain ⟨t, ht, rfl⟩ := List.mem_map.mp ha
+          simp only at hda hgid
+          obtain ⟨hp, hv, hg⟩ := hplain t ht hda
+          cases hn : nominal f t.1 with
+          | none => rw [hn] at hg; cases hg
+          | some gl =>
+            have := plain_slot_ltr u f c s _ g1 g2 g3 b gl hp hv hda hn h1 h2 h3 h5
+            rw [this]; unfold visOf; simp only; rw [hn]; rfl)]
+      unfold initial
+      rw [List.filter_map, List.map_map]
+      rfl
+
+
+theorem rotCp_ltr (u : Ucd) (f : Font) (c : Cfg) (cp : Nat) (hdir : c.dir = .ltr) : rotCp u f c cp = cp := by
+  unfold rotCp; rw [hdir]; rfl
+
+theorem vis_glyphOf_ltr (u : Ucd) (f : Font) (c : Cfg) (t : Nat × Nat) (hdir : c.dir = .ltr) :
+    vis (glyphOf u f c t) = visOf f t.1 := by
+  unfold glyphOf visOf vis
+  rw [rotCp_ltr u f c _ hdir, hdir]
+  rfl
+
 end RbModel.Pipeline
